@@ -137,6 +137,90 @@ def work(job):
             ev += 3
             dist.add(hash((a << s, dn)) & 0xffff)
         p.wait()
+    elif mode == 'wrap':
+        import struct
+        p = popen([h, 'wrap', str(K), str(shard), str(n)])
+        for line in p.stdout:
+            t = line.split()
+            if not t:
+                continue
+            if t[0] == 'END':
+                ended = True
+                break
+            if t[0] == 'U':
+                i = int(t[1]); a = V[i]
+                length, single, isz, isn, isp, neg, frp, ul, df, dec = t[2:12]
+                if int(length) != abs(a).bit_length() and not (a == 0 and int(length) == 1):
+                    mis('fiLength', desc[i], length)
+                if int(single) != int(abs(a) < (1 << 63)) and a != -(1 << 63):
+                    mis('fiIsSingle', desc[i], single)
+                if [int(isz), int(isn), int(isp)] != [int(a == 0), int(a < 0), int(a > 0)]:
+                    mis('fiSign', desc[i], isz, isn, isp)
+                if hx(neg) != -a:
+                    mis('fiNegate', desc[i], neg)
+                if frp != '-' and hx(frp) != a:
+                    mis('fiFrPlacev', desc[i], frp)
+                if ul != '-' and hx(ul) != a:
+                    mis('toULong', desc[i], ul)
+                if df != '-':
+                    try:
+                        want = struct.unpack('<Q', struct.pack('<d', float(a)))[0]
+                    except OverflowError:
+                        want = 0x7ff0000000000000 | ((1 << 63) if a < 0 else 0)
+                    if hx(df) != want:
+                        mis('fiToDFlo', desc[i], df, '%x' % want)
+                if int(dec) != a:
+                    mis('fiToString', desc[i], dec[:60])
+                ev += 9
+                continue
+            if not t[0].isdigit():
+                mis('crash', line.strip())
+                continue
+            i, j = int(t[0]), int(t[1])
+            a, b, c = V[i], V[j], V[(3 * i + 5 * j + 1) % len(V)]
+            exp = [a + b, a - b, a * b, a * b + c]
+            if b != 0:
+                exp += list(tdiv(a, b))
+            else:
+                exp += ['-', '-']
+            for k, e in enumerate(exp):
+                got = t[2 + k]
+                if e == '-':
+                    if got != '-':
+                        mis('fiDivide-by-zero', desc[i], got)
+                elif got == '-' or hx(got) != e:
+                    mis(['fiPlus', 'fiMinus', 'fiTimes', 'fiTimesPlus', 'fiDivide.q', 'fiDivide.r'][k], desc[i], '|', desc[j], 'got', got, 'want', '%x' % e)
+            if [int(x) for x in t[8:12]] != [int(a == b), int(a != b), int(a < b), int(a <= b)]:
+                mis('fiCompare', desc[i], '|', desc[j], t[8:12])
+            ev += 10
+            dist.add(hash((a * b + c, a - b)) & 0xffff)
+        p.wait()
+    elif mode == 'wshift':
+        p = popen([h, 'wshift', str(K), str(shard), str(n)])
+        for line in p.stdout:
+            t = line.split()
+            if not t:
+                continue
+            if t[0] == 'END':
+                ended = True
+                break
+            if not t[0].isdigit():
+                mis('crash', line.strip())
+                continue
+            i, s = int(t[0]), int(t[1])
+            a = V[i]
+            if hx(t[2]) != a << s:
+                mis('fiShiftUp', desc[i], s, t[2])
+            dn = hx(t[3])
+            trunc = -((-a) >> s) if a < 0 else a >> s
+            if dn != trunc and dn != (a >> s):
+                mis('fiShiftDn', desc[i], s, t[3])
+            bit = int(t[4])
+            if bit != ((abs(a) >> s) & 1) and not (a < 0 and bit == ((a >> s) & 1)):
+                mis('fiBit', desc[i], s, bit)
+            ev += 3
+            dist.add(hash((a << s, dn)) & 0xffff)
+        p.wait()
     elif mode == 'power':
         p = popen([h, 'power', str(K), str(shard), str(n)])
         for line in p.stdout:
@@ -348,11 +432,11 @@ def main(tier):
         ck.finish()
     K = KQ if tier == 'quick' else KT
     jobs = [(h, 'vals', K, 0, 1), (h, 'dword', K, 0, 1)]
-    for mode in ('pairs', 'shifts', 'power', 'scan', 'powmod'):
-        ns = NCPU * (4 if mode == 'pairs' else 1)
+    for mode in ('pairs', 'wrap', 'shifts', 'wshift', 'power', 'scan', 'powmod'):
+        ns = NCPU * (4 if mode in ('pairs', 'wrap') else 1)
         for s in range(ns):
             jobs.append((h, mode, K, s, ns))
-    jobs.sort(key=lambda j: 0 if j[1] == 'pairs' else 1)
+    jobs.sort(key=lambda j: 0 if j[1] in ('pairs', 'wrap') else 1)
     dist = set()
     per = {}
     with mp.Pool(NCPU) as pool:
